@@ -21,8 +21,8 @@ Proof. first [ py_gen | intros; unfold gen_cost_sat_func; py_pointwise ]. Qed.
 Lemma gen_effort_ok : forall I P b p pre, gen_effort_sat_func I P b p pre == effort_p I P b p.
 Proof.
   first [ py_gen
-        | intros; unfold gen_effort_sat_func; py_unfold; rewrite supporters_sum, Qnat_eqb0';
-          destruct (Nat.eqb (supporters P p) 0); simpl; [reflexivity|]; rewrite supporters_sum; reflexivity ].
+        | timeout 60 (intros; unfold gen_effort_sat_func; py_unfold; rewrite supporters_sum, Qnat_eqb0';
+          destruct (Nat.eqb (supporters P p) 0); simpl; [reflexivity|]; rewrite supporters_sum; reflexivity) ].
 Qed.
 
 Lemma gen_additive_card_ok : forall I P b p pre, gen_additive_card_sat_func I P b p pre == add_card_p b p.
@@ -48,15 +48,15 @@ Proof. first [ py_gen | intros; unfold gen_additive_card_relative_sat_func; py_p
 Lemma gen_borda_ok : forall b p, gen_borda_sat_func b p == borda_p b p.
 Proof.
   first [ py_gen
-        | intros; unfold gen_borda_sat_func; py_unfold; destruct (inb b p) eqn:E; [|reflexivity];
-          rewrite (borda_bridge b p E); reflexivity ].
+        | timeout 60 (intros; unfold gen_borda_sat_func; py_unfold; destruct (inb b p) eqn:E; [|reflexivity];
+          rewrite (borda_bridge b p E); reflexivity) ].
 Qed.
 
 (* ---------- functional measures ---------- *)
 Lemma gen_cc_app_ok : forall I P b W, gen_cc_sat_func_app I P b W == cc_app b W.
 Proof.
   first [ py_gen
-        | intros; unfold gen_cc_sat_func_app; py_unfold; rewrite existsb_map; reflexivity ].
+        | timeout 60 (intros; unfold gen_cc_sat_func_app; py_unfold; rewrite existsb_map; reflexivity) ].
 Qed.
 
 Lemma gen_cc_card_ok : forall I P b W, gen_cc_sat_func_card I P b W == cc_card b W.
